@@ -76,8 +76,8 @@ enum { ST_NONE = 0, ST_SUCCESS = 1, ST_FAILURE = 2 };
 // C09 look-ahead: when the report bits the machine keeps differ from the ones the history warrants, the explorer follows the
 // machine a bounded number of default steps further with the warranted bits carried along (g_ghost_in), so that the consequence
 // the property names -- an outcome callback in a cycle that does not warrant it -- is observed rather than inferred.
-struct PlanGhost { bool valid; uint8_t succ, fail; bool exists; };
-static PlanGhost g_ghost_in = {false, 0, 0, false}, g_ghost_out = {false, 0, 0, false};
+struct PlanGhost { bool valid; uint8_t succ, fail; bool exists; int len; TxS plan[MAXPLAN + 1]; };   // (the warranted plan content is carried the same way: a task the machine lost still remains)
+static PlanGhost g_ghost_in = {false, 0, 0, false, 0, {}}, g_ghost_out = {false, 0, 0, false, 0, {}};
 static bool g_ghost_diverged = false;
 
 #if VX_PLANS
@@ -98,7 +98,7 @@ inline void m_plans(const Edge& e, const Parsed& P, unsigned props) {
 	PlanModel m; memset(&m, 0, sizeof m);
 	if (e.initial) { m.active = NONE8; m.req = TX_NONE; } else pm_from(e.pre, m);
 	const bool ghost = g_ghost_in.valid && !e.initial;
-	if (ghost) { m.succ = g_ghost_in.succ; m.fail = g_ghost_in.fail; m.exists = g_ghost_in.exists; }
+	if (ghost) { m.succ = g_ghost_in.succ; m.fail = g_ghost_in.fail; m.exists = g_ghost_in.exists; m.len = g_ghost_in.len; for (int k = 0; k < m.len && k <= MAXPLAN; ++k) m.plan[k] = g_ghost_in.plan[k]; }
 	g_ghost_out.valid = false; g_ghost_diverged = false;
 	const uint8_t A0 = m.active;
 	const bool cycle = e.op.k == OP_UPDATE || e.op.k == OP_REACT;
@@ -214,8 +214,9 @@ inline void m_plans(const Edge& e, const Parsed& P, unsigned props) {
 	apply_pending_clears();
 	if (A0 != NONE8 && (e.op.k == OP_EXIT || e.op.k == OP_DESTROY || (e.op.k == OP_LOAD && e.op.a == N))) { pm_clear(m); m.exists = false; m.active = NONE8; }   // deactivation of an active machine; loading 'inactive' into an inactive one is a no-op
 	if (e.terminal) return;
-	g_ghost_out = PlanGhost{true, m.succ, m.fail, m.exists};
-	g_ghost_diverged = e.post.succ != m.succ || e.post.fail != m.fail || (e.post.exists != 0) != m.exists;
+	g_ghost_out.valid = true; g_ghost_out.succ = m.succ; g_ghost_out.fail = m.fail; g_ghost_out.exists = m.exists; g_ghost_out.len = m.len; for (int k = 0; k < m.len && k <= MAXPLAN; ++k) g_ghost_out.plan[k] = m.plan[k];
+	bool planSame = e.post.planlen == m.len; for (int k = 0; planSame && k < m.len && k < MAXPLAN; ++k) planSame = task_eq(e.post.plan[k], m.plan[k]);
+	g_ghost_diverged = e.post.succ != m.succ || e.post.fail != m.fail || (e.post.exists != 0) != m.exists || !planSame;
 	// ---- C08: the plan step
 	if (c08 && cycle) {
 		if (e.logger_on && nSeenFired != nF) flag(C08, "due-task-did-not-fire", e, "%d tasks were due (first %d>%d), %d fired", nF, nF ? F[0].o : -1, nF ? F[0].d : -1, nSeenFired);
@@ -269,6 +270,8 @@ inline void m_plans(const Edge& e, const Parsed& P, unsigned props) {
 		if (!ghost && e.post.succ != m.succ) flag(C09, "success-report-lifetime", e, "outstanding success reports %x, expected %x (the look-ahead shows the consequence where there is one)", e.post.succ, m.succ);
 		if (!ghost && e.post.fail != m.fail) flag(C09, "failure-report-lifetime", e, "outstanding failure reports %x, expected %x", e.post.fail, m.fail);
 		if (checkEmptyAfterOutcome && e.post.planlen) flag(C09, "plan-not-empty-after-outcome", e, "%d tasks after the outcome callback returned", e.post.planlen);
+		// "no task remains" is about the tasks appended and neither fired nor removed; a task the machine no longer sees still remains
+		if (!ghost && e.post.planlen < m.len) flag(C09, "remaining-task-lost", e, "%d task(s) appended and neither fired nor removed remain, the machine sees %d: planSucceeded() is delivered as soon as the visible ones are gone (the look-ahead shows the consequence where it is within reach)", m.len, e.post.planlen);
 	}
 }
 
